@@ -152,9 +152,17 @@ func c18Product(g *Gen, a, b addchain.Chain) {
 	out := "panic"
 	unch := false
 	safe(func() {
+		// the arguments are prefixes of longer chains the caller still owns (spare capacity behind
+		// them): a result built by appending in place would overwrite the caller's elements
+		fa, fb := c18Spare(a), c18Spare(b)
+		a, b = fa[:len(a)], fb[:len(b)]
 		c := addchain.Product(a, b)
 		out = encInts(c)
-		unch = equalInts(a0, a) && equalInts(b0, b)
+		// a second call must not disturb the first result
+		_ = addchain.Product(a, b)
+		_ = addchain.Plus(c, big.NewInt(1))
+		_ = addchain.Plus(c, big.NewInt(2))
+		unch = equalInts(a0, a) && equalInts(b0, b) && c18SpareIntact(fa, len(a)) && c18SpareIntact(fb, len(b)) && out == encInts(c)
 		c18Aliasing(g, "product", c, a0, a)
 	})
 	g.Line("c18", "product", encInts(a0), encInts(b0), out, b01(unch))
@@ -166,13 +174,38 @@ func c18Plus(g *Gen, a addchain.Chain, x *big.Int) {
 	out := "panic"
 	unch := false
 	safe(func() {
+		fa := c18Spare(a)
+		a = fa[:len(a)]
 		c := addchain.Plus(a, x)
 		out = encInts(c)
-		unch = equalInts(a0, a) && x0.Cmp(x) == 0
+		// further calls on the same argument must not disturb the first result
+		_ = addchain.Plus(a, big.NewInt(1))
+		_ = addchain.Plus(a, new(big.Int).Add(x, big.NewInt(1)))
+		unch = equalInts(a0, a) && x0.Cmp(x) == 0 && c18SpareIntact(fa, len(a)) && out == encInts(c)
 		c18Aliasing(g, "plus", c, a0, a)
 	})
 	g.Line("c18", "plus", encInts(a0), x0.String(), out, b01(unch))
 	g.Count("plus")
+}
+
+// c18Spare returns a copy of a followed by three sentinel elements, so that a[:len(a)] has spare
+// capacity that belongs to the caller.
+func c18Spare(a addchain.Chain) addchain.Chain {
+	f := make(addchain.Chain, 0, len(a)+3)
+	f = append(f, a...)
+	for i := 0; i < 3; i++ {
+		f = append(f, big.NewInt(-777-int64(i)))
+	}
+	return f
+}
+
+func c18SpareIntact(f addchain.Chain, n int) bool {
+	for i := 0; i < 3; i++ {
+		if f[n+i] == nil || f[n+i].Cmp(big.NewInt(-777-int64(i))) != 0 {
+			return false
+		}
+	}
+	return true
 }
 
 // c18Aliasing records (statistics only, not part of the property) whether the
